@@ -15,6 +15,21 @@ Theorem C23_builtin_no_panic : forall oifs raw t inp, exists r, read_builtin oif
 Proof. exact read_builtin_no_panic. Qed.
 Print Assumptions C23_builtin_no_panic.
 
+(* ReadFields = the bash/POSIX read fields: every line, IFS (unset, empty, white space, other,
+   mixed, multi-byte), n (<= 0: all fields), with and without -r.  Spec (Expand/Read.v): POSIX fields
+   of the unescaped line; if there are more fields than names the last takes the line from the start
+   of its field on, minus trailing IFS white space (escaped or not, as bash does) *)
+Theorem C23_read_matches : forall oifs line n raw,
+  read_fields oifs line n raw = Ok (spec_read_fields oifs line n raw).
+Proof. exact read_fields_spec. Qed.
+Print Assumptions C23_read_matches.
+
+(* the builtin: logical line (continuations, -r), names padded with "", REPLY untrimmed, -a *)
+Theorem C23_builtin_matches : forall oifs raw t inp,
+  read_builtin oifs raw t inp = Ok (spec_read oifs raw t inp).
+Proof. exact read_builtin_spec. Qed.
+Print Assumptions C23_builtin_matches.
+
 (* IFS=: read a b c <<< 'x::y:z:'  gives  x '' y:z: ;  IFS=: read a <<< 'x:' gives x;
    read a b <<< 'a\ b c\ ' keeps the escaped blanks; spec and model agree on them *)
 Example C23_ex_rest :
